@@ -339,10 +339,10 @@ def make_value(rng, ftype, vc, thorough=False):
     raise KeyError(ftype)
 
 
-def make_descriptor(rng, must=(), nfields=None, digest_p=0.04, name=None):
+def make_descriptor(rng, must=(), nfields=None, digest_p=0.04, name=None, wide=False):
     from flow.record import RecordDescriptor
 
-    n = nfields if nfields is not None else rng.choice([0, 1, 1, 2, 2, 3, 3, 4, 6, 9, 13])
+    n = nfields if nfields is not None else rng.choice([0, 1, 1, 2, 2, 3, 3, 4, 6, 9, 13] + ([25, 60] if wide else []))
     types = list(must)
     while len(types) < n:
         types.append("digest" if rng.random() < digest_p else rng.choice(MAPPED_NO_DIGEST))
